@@ -147,7 +147,14 @@ class L2:
 
         def reciprocal(a):
             sh = a.share
-            if not hasattr(sh, 'result') and not hasattr(getattr(sh, 'value', None), 't'):
+            if hasattr(sh, 'result') and getattr(sh, 'done', lambda: False)():
+                sh = sh.result()
+            v = getattr(sh, 'value', None)
+            const = False
+            if hasattr(v, 't'):
+                import z3
+                const = z3.is_int_value(z3.simplify(v.t))      # a constant in symbolic clothing (operands forked by value)
+            if not hasattr(sh, 'result') and (not hasattr(v, 't') or const):
                 return type(a)(sh.reciprocal())
             return orig(a)
         mpc.reciprocal = reciprocal
